@@ -121,7 +121,17 @@ def _exh_cases(tier, seed, i0):
                 i += 1
 
 
+# thorough tier: every 60-th case also runs in a worker whose extensions are ASan/UBSan-instrumented (vlib/sanitize.py)
+ASAN_EVERY = {"quick": 0, "thorough": 60}
+GROUPS = {"thorough": [dict(name="asan", flavour="asan", workers=2)]}
+
+
 def gen_cases(tier, seed):
+    from vlib.gen import common as _common
+    return _common.with_asan_slice(_gen_cases(tier, seed), ASAN_EVERY[tier])
+
+
+def _gen_cases(tier, seed):
     n = NCASES[tier]
     for i in range(n):
         rng = common.rng_for("C11", seed, i)
